@@ -7,13 +7,16 @@
    accepting). *)
 EXTENDS Naturals, Sequences, FiniteSets, TLC, Json
 
-CONSTANTS Pipes, MaxOps, MaxTicks, RTime      \* RTime: NNG_OPT_RECONNMINT = NNG_OPT_RECONNMAXT (ms)
+CONSTANTS Pipes, MaxOps, MaxTicks, RMin, RMax      \* NNG_OPT_RECONNMINT, NNG_OPT_RECONNMAXT (ms)
 
 VARIABLES
   sock,              \* "open" | "closed"
-  lst, dst,          \* listener / dialer: "none" | "up" | "closed"
+  lst, dst,          \* listener: "none" | "up" | "closed";  dialer: "none" | "idle" (created, not dialling) | "up" | "closed"
   lparked, dparked,  \* an accept / a connect is parked in the transport
   dwait,             \* the dialer's redial timer is running
+  dbo,               \* ... and fires within this many ms (the back-off in force when it was armed)
+  cur,               \* the dialer's current back-off: RMin after every connection, doubled (up to RMax) by every redial timer
+  duser,             \* the operation of a pending nng_dialer_start_aio (0: none)
   dpipe,             \* the pipe the dialer owns (0: none)
   pst,               \* per pipe: "none" | "up" | "gone"      ("gone": closed, all its events delivered)
   via,               \* per pipe: "L" | "D" | "-"  (which endpoint created it)
@@ -22,26 +25,32 @@ VARIABLES
   ctx1,              \* "none" | "open" | "closed"
   rops,              \* pending receives: op -> context (0: socket)
   ops, used, ticks, doneV, lastAct, ev
-vars == <<sock, lst, dst, lparked, dparked, dwait, dpipe, pst, via, hist, reject, ctx1, rops, ops, used, ticks, doneV, lastAct, ev>>
+vars == <<sock, lst, dst, lparked, dparked, dwait, dbo, cur, duser, dpipe, pst, via, hist, reject, ctx1, rops, ops, used, ticks, doneV, lastAct, ev>>
 
 NOps == Len(ops)
-Init == /\ sock = "open" /\ lst = "up" /\ dst = "none" /\ lparked = TRUE /\ dparked = FALSE /\ dwait = FALSE /\ dpipe = 0
+Init == /\ sock = "open" /\ lst = "up" /\ dst = "none" /\ lparked = TRUE /\ dparked = FALSE /\ dwait = FALSE /\ dbo = 0 /\ cur = RMin /\ duser = 0 /\ dpipe = 0
         /\ pst = [p \in Pipes |-> "none"] /\ via = [p \in Pipes |-> "-"] /\ hist = [p \in Pipes |-> <<>>] /\ reject = FALSE
         /\ ctx1 = "none" /\ rops = <<>> /\ ops = <<>> /\ used = {} /\ ticks = 0 /\ doneV = <<>> /\ lastAct = [a |-> "init"] /\ ev = <<>>
 
-S0 == [sock |-> sock, lst |-> lst, dst |-> dst, lparked |-> lparked, dparked |-> dparked, dwait |-> dwait, dpipe |-> dpipe,
+S0 == [sock |-> sock, lst |-> lst, dst |-> dst, lparked |-> lparked, dparked |-> dparked, dwait |-> dwait, dbo |-> dbo, cur |-> cur, duser |-> duser, dpipe |-> dpipe,
        pst |-> pst, via |-> via, hist |-> hist, ctx1 |-> ctx1, rops |-> rops, ops |-> ops, done |-> {}, ev |-> <<>>]
 SortDone(D) == LET RECURSIVE F(_) F(X) == IF X = {} THEN <<>> ELSE LET x == CHOOSE y \in X : \A z \in X : y.op <= z.op IN <<x>> \o F(X \ {x}) IN F(D)
 Apply(S, a) ==
   /\ sock' = S.sock /\ lst' = S.lst /\ dst' = S.dst /\ lparked' = S.lparked /\ dparked' = S.dparked /\ dwait' = S.dwait /\ dpipe' = S.dpipe
+  /\ dbo' = S.dbo /\ cur' = S.cur /\ duser' = S.duser
   /\ pst' = S.pst /\ via' = S.via /\ hist' = S.hist /\ ctx1' = S.ctx1 /\ rops' = S.rops /\ ops' = S.ops
   /\ doneV' = SortDone(S.done) /\ ev' = S.ev /\ lastAct' = a
 Note(S, p, e) == [S EXCEPT !.hist = [@ EXCEPT ![p] = Append(@, e)], !.ev = Append(@, <<p, e, Len(S.hist[p]) + 1>>)]
+Min(a, b) == IF a < b THEN a ELSE b
+\* dialer_timer_start_locked: the delay is random below the current back-off, which then doubles up to RMax
+Arm(S) == IF S.dst = "up" THEN [S EXCEPT !.dwait = TRUE, !.dbo = S.cur, !.cur = Min(2 * S.cur, RMax)] ELSE S
+\* a user operation completes
+Done(S, k, rv) == [S EXCEPT !.ops = [@ EXCEPT ![k] = "done"], !.done = @ \cup {[op |-> k, rv |-> rv]}]
 \* a pipe goes away: REM_POST iff it had ADD_POST; its dialer starts the redial timer
 Drop(S, p) ==
   IF S.pst[p] # "up" THEN S
   ELSE LET A == Note([S EXCEPT !.pst = [@ EXCEPT ![p] = "gone"]], p, "rem")
-       IN IF S.dpipe = p THEN [A EXCEPT !.dpipe = 0, !.dwait = (S.dst = "up")] ELSE A
+       IN IF S.dpipe = p THEN Arm([A EXCEPT !.dpipe = 0]) ELSE A
 RECURSIVE DropAll(_, _)
 DropAll(S, ps) == IF ps = {} THEN S ELSE LET p == CHOOSE x \in ps : \A y \in ps : x <= y IN DropAll(Drop(S, p), ps \ {p})
 \* every pending receive of the contexts in cs completes with NNG_ECLOSED
@@ -53,9 +62,10 @@ FailOps(S, cs) ==
   IN [F(S, idx) EXCEPT !.rops = SelectSeq(S.rops, LAMBDA r : r.ctx \notin cs)]
 \* a new pipe from endpoint e: ADD_PRE; closed there (reject) or ADD_POST
 NewPipe(S, p, e) ==
-  LET A == Note([S EXCEPT !.via = [@ EXCEPT ![p] = e]], p, "pre")
+  LET A0 == Note([S EXCEPT !.via = [@ EXCEPT ![p] = e]], p, "pre")
+      A == IF e = "D" THEN [A0 EXCEPT !.cur = RMin] ELSE A0         \* dialer_start_pipe: connected, the back-off starts over
   IN IF reject THEN \* closed inside ADD_PRE: never announced with ADD_POST, retired with REM_POST
-          [Note(A, p, "rem") EXCEPT !.pst = [@ EXCEPT ![p] = "gone"], !.dwait = IF e = "D" /\ S.dst = "up" THEN TRUE ELSE @]
+          LET B == [Note(A, p, "rem") EXCEPT !.pst = [@ EXCEPT ![p] = "gone"]] IN IF e = "D" THEN Arm(B) ELSE B
      ELSE LET B == Note([A EXCEPT !.pst = [@ EXCEPT ![p] = "up"]], p, "post") IN IF e = "D" THEN [B EXCEPT !.dpipe = p] ELSE B
 
 \* ---------------------------------------------------------------- application
@@ -67,20 +77,33 @@ CtxOpen == /\ sock = "open" /\ ctx1 = "none" /\ Apply([S0 EXCEPT !.ctx1 = "open"
            /\ UNCHANGED <<reject, used, ticks>>
 CtxClose == /\ sock = "open" /\ ctx1 = "open" /\ Apply(FailOps([S0 EXCEPT !.ctx1 = "closed"], {1}), [a |-> "ctx_close", ctx |-> 1, out |-> [rv |-> "ok", done |-> <<>>]])
             /\ UNCHANGED <<reject, used, ticks>>
-Dial == /\ sock = "open" /\ dst = "none" /\ Apply([S0 EXCEPT !.dst = "up", !.dparked = TRUE], [a |-> "dial", out |-> [rv |-> "ok"]])
+Dial == /\ sock = "open" /\ dst \in {"none", "idle"} /\ Apply([S0 EXCEPT !.dst = "up", !.dparked = TRUE], [a |-> "dial", out |-> [rv |-> "ok"]])
         /\ UNCHANGED <<reject, used, ticks>>
+\* nng_dialer_start_aio with an operation that cannot start (zero timeout): it completes once, with NNG_ETIMEDOUT, and the dialer
+\* is not dialling (it can be started again);  C02 for the dial operation, C14
+DialAio0 == /\ sock = "open" /\ dst \in {"none", "idle"} /\ NOps < MaxOps
+            /\ Apply(Done([S0 EXCEPT !.ops = Append(@, "pend"), !.dst = "idle"], NOps + 1, "etimedout"),
+                     [a |-> "dial", mode |-> "aio0", op |-> NOps + 1, out |-> [rv |-> "ok"]])
+            /\ UNCHANGED <<reject, used, ticks>>
+\* ... with an operation that waits for the outcome of the first attempt
+DialAio == /\ sock = "open" /\ dst \in {"none", "idle"} /\ NOps < MaxOps
+           /\ Apply([S0 EXCEPT !.ops = Append(@, "pend"), !.dst = "up", !.dparked = TRUE, !.duser = NOps + 1],
+                    [a |-> "dial", mode |-> "aio", op |-> NOps + 1, out |-> [rv |-> "ok"]])
+           /\ UNCHANGED <<reject, used, ticks>>
 SetReject(b) == /\ sock = "open" /\ reject # b /\ reject' = b /\ Apply(S0, [a |-> "reject", on |-> b, out |-> [rv |-> "ok"]])
                 /\ UNCHANGED <<used, ticks>>
 LClose == /\ sock = "open" /\ lst = "up"
           /\ Apply(DropAll([S0 EXCEPT !.lst = "closed", !.lparked = FALSE], {p \in Pipes : via[p] = "L"}), [a |-> "lclose", out |-> [rv |-> "ok"]])
           /\ UNCHANGED <<reject, used, ticks>>
-DClose == /\ sock = "open" /\ dst = "up"
-          /\ Apply(DropAll([S0 EXCEPT !.dst = "closed", !.dparked = FALSE, !.dwait = FALSE], {p \in Pipes : via[p] = "D"}), [a |-> "dclose", out |-> [rv |-> "ok"]])
+UserEnd(S, rv) == IF S.duser = 0 THEN S ELSE Done([S EXCEPT !.duser = 0], S.duser, rv)
+DClose == /\ sock = "open" /\ dst \in {"up", "idle"}
+          /\ Apply(DropAll(UserEnd([S0 EXCEPT !.dst = "closed", !.dparked = FALSE, !.dwait = FALSE], "eclosed"), {p \in Pipes : via[p] = "D"}),
+                   [a |-> "dclose", out |-> [rv |-> "ok"]])
           /\ UNCHANGED <<reject, used, ticks>>
 PipeClose(p) == /\ sock = "open" /\ pst[p] = "up" /\ Apply(Drop(S0, p), [a |-> "pipe_close", p |-> p]) /\ UNCHANGED <<reject, used, ticks>>
 Close == /\ sock = "open"
-         /\ Apply(FailOps(DropAll([S0 EXCEPT !.sock = "closed", !.lst = IF lst = "up" THEN "closed" ELSE @, !.dst = IF dst = "up" THEN "closed" ELSE @,
-                                              !.lparked = FALSE, !.dparked = FALSE, !.dwait = FALSE, !.ctx1 = IF ctx1 = "open" THEN "closed" ELSE @], Pipes), {0, 1}),
+         /\ Apply(FailOps(DropAll(UserEnd([S0 EXCEPT !.sock = "closed", !.lst = IF lst = "up" THEN "closed" ELSE @, !.dst = IF dst \in {"up", "idle"} THEN "closed" ELSE @,
+                                              !.lparked = FALSE, !.dparked = FALSE, !.dwait = FALSE, !.ctx1 = IF ctx1 = "open" THEN "closed" ELSE @], "eclosed"), Pipes), {0, 1}),
                   [a |-> "close", out |-> [rv |-> "ok"]])
          /\ UNCHANGED <<reject, used, ticks>>
 \* after close every handle is refused: socket, context, listener, dialer, pipes
@@ -93,17 +116,21 @@ Probe == /\ sock = "closed" /\ lastAct.a # "probe"
 ConnectL(p) == /\ sock = "open" /\ lparked /\ p \notin used /\ used' = used \cup {p}
                /\ Apply(NewPipe(S0, p, "L"), [a |-> "connect", p |-> p, out |-> [rv |-> "ok"]]) /\ UNCHANGED <<reject, ticks>>
 ConnectD(p) == /\ sock = "open" /\ dparked /\ p \notin used /\ used' = used \cup {p}
-               /\ Apply(NewPipe([S0 EXCEPT !.dparked = FALSE], p, "D"), [a |-> "connect", p |-> p, side |-> "D", out |-> [rv |-> "ok"]])
+               /\ Apply(UserEnd(NewPipe([S0 EXCEPT !.dparked = FALSE], p, "D"), "ok"), [a |-> "connect", p |-> p, side |-> "D", out |-> [rv |-> "ok"]])
                /\ UNCHANGED <<reject, ticks>>
-DFail == /\ sock = "open" /\ dparked /\ Apply([S0 EXCEPT !.dparked = FALSE, !.dwait = TRUE], [a |-> "dfail", out |-> [rv |-> "ok"]])
+\* a failed attempt: in the background the dialer arms its redial timer; with a user operation waiting that operation fails and
+\* the dialer stops (it can be started again)
+DFail == /\ sock = "open" /\ dparked
+         /\ Apply(IF duser = 0 THEN Arm([S0 EXCEPT !.dparked = FALSE])
+                               ELSE UserEnd([S0 EXCEPT !.dparked = FALSE, !.dst = "idle"], "econnrefused"), [a |-> "dfail", out |-> [rv |-> "ok"]])
          /\ UNCHANGED <<reject, used, ticks>>
 PeerClose(p) == /\ sock = "open" /\ pst[p] = "up" /\ Apply(Drop(S0, p), [a |-> "peer_close", p |-> p]) /\ UNCHANGED <<reject, used, ticks>>
-\* the reconnect time passes: a waiting dialer has dialled again
+\* the back-off in force passes: a waiting dialer has dialled again (C14: the delay is below that bound, which never exceeds RMax)
 Tick == /\ ticks < MaxTicks /\ ticks' = ticks + 1
-        /\ Apply(IF dwait THEN [S0 EXCEPT !.dwait = FALSE, !.dparked = TRUE] ELSE S0, [a |-> "tick", d |-> RTime, out |-> [done |-> <<>>]])
+        /\ Apply(IF dwait THEN [S0 EXCEPT !.dwait = FALSE, !.dparked = TRUE] ELSE S0, [a |-> "tick", d |-> IF dwait THEN dbo ELSE RMin, out |-> [done |-> <<>>]])
         /\ UNCHANGED <<reject, used>>
 
-Next == Recv(0) \/ Recv(1) \/ CtxOpen \/ CtxClose \/ Dial \/ SetReject(TRUE) \/ SetReject(FALSE) \/ LClose \/ DClose \/ Close \/ Probe
+Next == Recv(0) \/ Recv(1) \/ CtxOpen \/ CtxClose \/ Dial \/ DialAio0 \/ DialAio \/ SetReject(TRUE) \/ SetReject(FALSE) \/ LClose \/ DClose \/ Close \/ Probe
         \/ DFail \/ Tick \/ \E p \in Pipes : ConnectL(p) \/ ConnectD(p) \/ PipeClose(p) \/ PeerClose(p)
 Spec == Init /\ [][Next]_vars
 
@@ -115,13 +142,15 @@ EventOrder == \A p \in Pipes : hist[p] \in Prefixes /\ (pst[p] = "up" <=> hist[p
 DialerSound == /\ Cardinality({p \in Pipes : via[p] = "D" /\ pst[p] = "up"}) <= 1
                /\ (dpipe # 0 => pst[dpipe] = "up" /\ via[dpipe] = "D")
                /\ (dst = "up" => (dpipe # 0 /\ ~dparked /\ ~dwait) \/ (dpipe = 0 /\ (dparked # dwait)))
+               /\ (dst # "up" => ~dparked /\ ~dwait /\ dpipe = 0 /\ duser = 0)
+               /\ (dwait => dbo <= RMax /\ dbo >= RMin) /\ cur <= RMax
 ListenerSound == (lst = "up" /\ sock = "open") => lparked
 \* C10: after close nothing is pending, every pipe that was announced has been retired, every endpoint is down
 ClosedIsFinal == sock = "closed" => /\ rops = <<>> /\ \A i \in 1..Len(ops) : ops[i] = "done"
                                     /\ \A p \in Pipes : pst[p] # "up" /\ ~lparked /\ ~dparked /\ ~dwait
 CtxClosedIsFinal == ctx1 = "closed" => \A i \in 1..Len(rops) : rops[i].ctx # 1
 
-SId == <<sock, lst, dst, lparked, dparked, dwait, dpipe, pst, via, hist, reject, ctx1, rops, ops, used, ticks>>
+SId == <<sock, lst, dst, lparked, dparked, dwait, dbo, cur, duser, dpipe, pst, via, hist, reject, ctx1, rops, ops, used, ticks>>
 UpSet == {p \in Pipes : pst[p] = "up"}
 WireObs == LET RECURSIVE F(_) F(S) == IF S = {} THEN <<>> ELSE LET p == CHOOSE x \in S : \A y \in S : x <= y IN <<p>> \o F(S \ {p}) IN F(UpSet)
 Obs == [done |-> doneV, S_ev |-> ev, up |-> WireObs, lparked |-> lparked, dparked |-> dparked]
